@@ -21,9 +21,9 @@ var propPackages = map[string][]string{
 	"C05": {"."},
 	"C06": {"rpc"},
 	"C07": {"rpc"},
-	"C08": {"rpc", "internal/errors"},
-	"C09": {"rpc", "rpc/transport"},
-	"C10": {"."},
+	"C08": {"rpc"},
+	"C09": {"rpc"},
+	"C10": {".", "rpc"},
 	"C11": {"."},
 	"C12": {"server"},
 	"C13": {"internal/packed"},
